@@ -26,6 +26,7 @@ import EinoV.Proofs.C02Workflow
 import EinoV.Expected.C02Workflow
 import EinoV.Proofs.TransDag
 import EinoV.Proofs.TransMgrInit
+import EinoV.Proofs.TransStep
 
 namespace EinoV.C02
 open EinoV.Engine EinoV.Gen
@@ -1018,5 +1019,175 @@ example : (match reportBranch exR3 exCm3 "x" ["b"] with
     | .ok cm => ctrlOfT cm | _ => []) = [("s", Dep.waiting), ("u", Dep.waiting)] := by decide
 
 end TranslatedManager
+
+/-! ### The translated step function (compose/graph_run.go → Gen/TransStep.lean; gotrans phase 4)
+
+  `copyItem`, `runner.calculateBranch`, `resolveCompletedTasks`, `createTasks`, `calculateNextTasks` are
+  re-translated from /repo on every run (value mode; structs `task`, `chanCall`, `GraphBranch`, `runner` by
+  value; `cm *channelManager` as an in/out parameter; every slice index / slice expression with an explicit
+  bounds guard whose failure is the outcome `GoOutcome.panic`).  The theorems below say that for
+  `isStream = false` the translated functions compute the model's `calcBranch`, `resolve`, `calcNext` — the
+  step function the run-level theorems of this property stand on (`run_at_most_once`, `run_justified`,
+  `run_complete`, schedule independence) — and never return `.panic` / `.unspecified`.
+
+  Relations / hypotheses (Proofs/TransStep.lean):
+    `BranchRel`, `CallRel`, `TaskRel`   a translated GraphBranch / chanCall / completed task is the model's
+                   Branch / Node / completed task: end nodes in the map's stored order (so every stored order
+                   of `endNodes` is covered by the model's arbitrary list `ends`), writeTo, controls, and the
+                   external `branch.invoke` is the model's condition followed by the end-node check
+    `MgrInv r c`   the hypotheses of the translated channel manager (`Rel`, `ChansOK`, `SuccClosed`, the skip
+                   invariants, the model's fuel bound) — kept by `calculateBranch` / `resolveCompletedTasks`
+    `CallsClosed`, `SubsOK`   every successor of a node that can complete has a channel; every channel but END
+                   has a `chanSubscribeTo` entry (what `compile` builds)
+    `NoBranchHandlers`, `NoHandlers`   the handler managers (externals) are the identity
+    fuel           Go's `reportBranch` loop has no fuel; the translated one terminates on acyclic graphs:
+                   "there is N such that for every fuel ≥ N" (N depends on the model state only)
+  Orders: the list handed to `reportBranch` and the created tasks are *equal* to the model's lists (not only
+  up to permutation): Go's map `skippedNodes` is filled in branch order × stored end-node order and
+  deletions keep the order of the rest, which is the model's `skippedOf`; the created tasks follow the
+  stored order of the ready map, which is the model's `getReady` order. -/
+section TranslatedStep
+open EinoV.GoSem EinoV.TransMgr EinoV.TransStep EinoV.GoWorkList EinoV.Gen.TransMgr EinoV.Gen.TransStep
+variable {V : Type} [Inhabited V]
+
+theorem translated_step_source_is_current : FactsC02.stepFunctionTranslated = true := by decide
+
+/-- `copyItem` in value mode: fewer than two copies ↦ the item alone, otherwise n copies (never a panic) -/
+theorem translated_copyItem_refines (ext : Ext V) (mext : MgrExt V) (sext : StepExt V) (item : V) (n : Int) :
+    copyItem ext mext sext item n = .ret (if n < 2 then [item] else List.replicate n.toNat item) :=
+  copyItem_spec ext mext sext item n
+
+/-- `delete(m, k)` (`GoMap.erase`, new in the prelude) is removal from the model's association list -/
+theorem translated_delete_is_assoc_removal {α : Type} (m : GoMap α) (k k' : Key) :
+    alookup k' (m.erase k) = if k' == k then none else alookup k' m :=
+  alookup_erase m k k'
+
+/-- **`calculateBranch` refines `calcBranch`.**  For every model state `cm` there is a fuel from which on, for
+    every manager representing `cm`, the translated function returns the model's selected keys and channels
+    (the copies it was handed unchanged), or an error exactly when the model fails. -/
+theorem translated_calculateBranch_refines (ext : Ext V) (mext : MgrExt V) (sext : StepExt V) (r : Runner V)
+    (gr : runner V) (cm : Chans V) (n : Node V) (out : V) (rank : Key → Nat)
+    (hacyc : r.dag = true → ∀ n ∈ r.nodes, ∀ s ∈ n.successors, rank n.key < rank s)
+    (hE : NoBranchHandlers sext) :
+    ∃ N, ∀ (c : channelManager V) (cc : chanCall V) (fuel : Nat), N ≤ fuel → toChans c.channels = cm →
+      MgrInv r c → CallRel sext cc n →
+      (∀ b ∈ n.branches, ∀ e ∈ b.ends, c.channels.has e = true) →
+      match calcBranch r cm n out with
+      | .ok (cm', sel) => ∃ c',
+          (∀ m, cc.writeToBranches.length ≤ m →
+            runner_calculateBranch ext mext sext fuel gr n.key cc (List.replicate m out) false c
+              = .ret (List.replicate m out, c', sel, none)) ∧
+          toChans c'.channels = cm' ∧ Frame c c' ∧ MgrInv r c' ∧ (n.branches = [] → sel = [])
+      | .error _ => ∃ c' e, ∀ m, cc.writeToBranches.length ≤ m →
+          runner_calculateBranch ext mext sext fuel gr n.key cc (List.replicate m out) false c
+            = .ret (List.replicate m out, c', [], some e) :=
+  calculateBranch_refines ext mext sext r gr cm n out rank hacyc hE
+
+/-- **`resolveCompletedTasks` refines `resolve`.** -/
+theorem translated_resolveCompletedTasks_refines (ext : Ext V) (mext : MgrExt V) (sext : StepExt V)
+    (r : Runner V) (gr : runner V) (rank : Key → Nat)
+    (hacyc : r.dag = true → ∀ n ∈ r.nodes, ∀ s ∈ n.successors, rank n.key < rank s)
+    (hE : NoBranchHandlers sext) (ts : List (task V)) (ds : List (Done V))
+    (hrel : ListRel (TaskRel sext r) ts ds) (cm : Chans V) :
+    ∃ N, ∀ fuel, N ≤ fuel → ∀ c, toChans c.channels = cm → MgrInv r c → EndsClosed r c →
+      match resolve r cm ds with
+      | .ok res => ∃ c', runner_resolveCompletedTasks ext mext sext fuel gr ts false c
+            = .ret (c', res.writes, res.deps, none) ∧
+          toChans c'.channels = res.cm ∧ Frame c c' ∧ MgrInv r c'
+      | .error _ => ∃ c' e, runner_resolveCompletedTasks ext mext sext fuel gr ts false c
+            = .ret (c', [], [], some e) :=
+  resolveCompletedTasks_refines ext mext sext r gr rank hacyc hE ts ds hrel cm
+
+/-- `createTasks`: one task per ready node, in the stored order of the map -/
+theorem translated_createTasks_refines (ext : Ext V) (mext : MgrExt V) (sext : StepExt V) (gr : runner V)
+    (nm : GoMap V) (om : GoMap (List V)) (h : ∀ p ∈ nm, gr.chanSubscribeTo.has p.1 = true) :
+    runner_createTasks ext mext sext gr nm om = (nm.map (mkTask gr), none) :=
+  createTasks_spec ext mext sext gr nm om h
+
+/-- **`calculateNextTasks` refines `calcNext`** — the model's step function is what the code computes. -/
+theorem translated_calculateNextTasks_refines (ops : ValOps V) (es : V) (mext : MgrExt V) (sext : StepExt V)
+    (r : Runner V) (gr : runner V) (rank : Key → Nat)
+    (hacyc : r.dag = true → ∀ n ∈ r.nodes, ∀ s ∈ n.successors, rank n.key < rank s)
+    (hE : NoBranchHandlers sext) (hM : NoHandlers mext)
+    (ts : List (task V)) (ds : List (Done V)) (hrel : ListRel (TaskRel sext r) ts ds) (cm : Chans V) :
+    ∃ N, ∀ fuel, N ≤ fuel → ∀ c om, toChans c.channels = cm → c.isStream = false → MgrInv r c →
+      CallsClosed r c → SubsOK gr c →
+      match calcNext (TransDag.opsFor ops es false) r cm ds with
+      | .ok (cm3, .result v) => ∃ c',
+          runner_calculateNextTasks (TransDag.extOf ops es) mext sext fuel gr ts false c om = .ret (c', [], v, none) ∧
+          toChans c'.channels = cm3 ∧ Frame c c' ∧ ChansOK r.dag c'.channels
+      | .ok (cm3, .tasks ready) => ∃ c',
+          runner_calculateNextTasks (TransDag.extOf ops es) mext sext fuel gr ts false c om
+            = .ret (c', ready.map (mkTask gr), default, none) ∧
+          toChans c'.channels = cm3 ∧ Frame c c' ∧ ChansOK r.dag c'.channels
+      | .error _ => ∃ c' e,
+          runner_calculateNextTasks (TransDag.extOf ops es) mext sext fuel gr ts false c om
+            = .ret (c', [], default, some e) :=
+  calculateNextTasks_refines ops es mext sext r gr rank hacyc hE hM ts ds hrel cm
+
+/-- the step function never leaves the translated semantics (no nil dereference, no index / slice bound
+    violated, no assignment into a nil map, nothing Go leaves unspecified) -/
+theorem translated_step_total (ops : ValOps V) (es : V) (mext : MgrExt V) (sext : StepExt V)
+    (r : Runner V) (gr : runner V) (rank : Key → Nat)
+    (hacyc : r.dag = true → ∀ n ∈ r.nodes, ∀ s ∈ n.successors, rank n.key < rank s)
+    (hE : NoBranchHandlers sext) (hM : NoHandlers mext)
+    (ts : List (task V)) (ds : List (Done V)) (hrel : ListRel (TaskRel sext r) ts ds) (cm : Chans V) :
+    ∃ N, ∀ fuel, N ≤ fuel → ∀ c om, toChans c.channels = cm → c.isStream = false → MgrInv r c →
+      CallsClosed r c → SubsOK gr c →
+      ∃ res, runner_calculateNextTasks (TransDag.extOf ops es) mext sext fuel gr ts false c om = .ret res :=
+  step_total ops es mext sext r gr rank hacyc hE hM ts ds hrel cm
+
+/-- the manager hypotheses hold for what `initChannelManager` builds, for every runner whose successors (of
+    the nodes and of START) are nodes or END; `MgrInv` is returned again by `calculateBranch` /
+    `resolveCompletedTasks` for the new manager -/
+theorem translated_step_hypotheses_hold (r : Runner V) (s : Bool) (hnd : (akeys (initChans r)).Nodup)
+    (hc : RunnerClosed r) (hs : ∀ k ∈ r.start.successors, k ∈ akeys (initChans r)) :
+    MgrInv r (initMgr r s) ∧ CallsClosed r (initMgr r s) ∧ toChans (initMgr r s).channels = initChans r :=
+  step_hypotheses_hold r s hnd hc hs
+
+/-! non-vacuity: the runner `exR2` (a → branch {b, c}; b, c → end), its translated twin, one step -/
+
+def exBrA : GraphBranch Nat := { endNodes := [("b", true), ("c", true)], idx := 0 }
+def exCallStart : chanCall Nat := { writeTo := ["a"], writeToBranches := [], controls := ["a"] }
+def exCallA : chanCall Nat := { writeTo := [], writeToBranches := [exBrA], controls := [] }
+def exCallBC : chanCall Nat := { writeTo := ["end"], writeToBranches := [], controls := ["end"] }
+def exGr : runner Nat := { chanSubscribeTo := [("a", exCallA), ("b", exCallBC), ("c", exCallBC)] }
+def exSext : StepExt Nat :=
+  { branchInvoke := fun _ _ => (["c"], none), branchCollect := fun _ _ => (["c"], none),
+    preBranchHandle := fun _ _ v _ => (v, none) }
+
+example : NoBranchHandlers exSext := fun _ _ _ _ => rfl
+example : BranchRel exSext exBrA { ends := ["b", "c"], cond := fun _ => .ok ["c"] } :=
+  ⟨rfl, fun _ ws h => by simp [brSel, bind, Except.bind, pure, Except.pure] at h; subst h; rfl,
+   fun _ e h => by simp [brSel, bind, Except.bind, pure, Except.pure] at h⟩
+example : MgrInv exR2 (initMgr exR2 false) ∧ CallsClosed exR2 (initMgr exR2 false) :=
+  let h := step_hypotheses_hold exR2 false (by decide) (by unfold RunnerClosed; decide) (by decide)
+  ⟨h.1, h.2.1⟩
+
+/-- START completed with 7: the translated step function hands `a` its input -/
+example : (match runner_calculateNextTasks (TransDag.extOf natOps 0) noH exSext 10 exGr
+      [{ nodeKey := "start", call := exCallStart, input := 7, output := 7 }] false (initMgr exR2 false) [] with
+    | .ret r => r.2.1.map (fun t => (t.nodeKey, t.input))
+    | _ => []) = [("a", 7)] := by decide
+
+/-- `a` completed on the initial manager: the branch selects `c`; `b` is reported skipped, `c` is started
+    — the same tasks as the model's `calcNext` -/
+example : (match runner_calculateNextTasks (TransDag.extOf natOps 0) noH exSext 10 exGr
+      [{ nodeKey := "a", call := exCallA, input := 7, output := 7 }] false (initMgr exR2 false) [] with
+    | .ret r => r.2.1.map (fun t => (t.nodeKey, t.input))
+    | _ => []) = [("c", 7)] := by decide
+example : (match calcNext natOps exR2 (initChans exR2) [("a", 7)] with
+    | .ok (_, .tasks ts) => ts
+    | _ => []) = [("c", 7)] := by decide
+
+/-- the bounds guards are live: `calculateBranch` handed fewer copies than there are branches returns Go's
+    "unreachable" error, and an index beyond the copies is the explicit outcome panic -/
+example : (match runner_calculateBranch (TransDag.extOf natOps 0) noH exSext 10 exGr "a" exCallA [] false (initMgr exR2 false) with
+    | .ret r => r.2.2.2.isSome
+    | _ => false) = true := by decide
+example : goIdx? [1, 2, 3] 3 = none ∧ goIdx? [1, 2, 3] (-1) = none ∧ goSlice? [1, 2, 3] 2 4 = none ∧
+    goSlice? [1, 2, 3] 1 3 = some [2, 3] := by decide
+
+end TranslatedStep
 
 end EinoV.C02
